@@ -12,6 +12,9 @@ import time
 
 VERIF = os.path.dirname(os.path.dirname(os.path.abspath(__file__)))
 PY = os.environ.get("JXSIM_PYTHON", "/venv/bin/python")
+# where evidence/ and replays/ are written: /verif for the registered checks; a scratch directory when the machinery is
+# pointed at a scratch copy of the repository (mutant evaluation, sensitivity self-test)
+OUT = os.environ.get("JXSIM_OUT", VERIF)
 sys.path.insert(0, VERIF)
 
 
@@ -139,8 +142,8 @@ def run_batch(prop, tier, batch_seed, nruns=None, workers=None, wall_limit=None,
             minimal = shrink(sc, prop, program, v["oracle"], budget_s=float(os.environ.get("JXSIM_SHRINK_S", 150)), log=shrink_log)
         res_min = _exec_program(prop, minimal) or {}
         vmin = next((x for x in res_min.get("violations", []) if x["oracle"] == v["oracle"]), v)
-        os.makedirs(os.path.join(VERIF, "replays"), exist_ok=True)
-        replay_path = os.path.join(VERIF, "replays", f"{prop}-{r['seed']}.json")
+        os.makedirs(os.path.join(OUT, "replays"), exist_ok=True)
+        replay_path = os.path.join(OUT, "replays", f"{prop}-{r['seed']}.json")
         json.dump({"property": prop, "seed": r["seed"], "batch_seed": batch_seed, "run_index": r["i"], "tier": tier,
                    "program": minimal, "original_program": program,
                    "violation": vmin, "original_violation": v, "event_digest": res_min.get("digest"),
@@ -148,8 +151,8 @@ def run_batch(prop, tier, batch_seed, nruns=None, workers=None, wall_limit=None,
                    "shrink": shrink_log, "versions": versions()}, open(replay_path, "w"), indent=1, default=str)
     wall = time.time() - t0
     ev = evidence(sc, prop, tier, batch_seed, executed, skipped, unknown, known_hits, harness_errors, wall, workers, nruns)
-    os.makedirs(os.path.join(VERIF, "evidence"), exist_ok=True)
-    evpath = os.path.join(VERIF, "evidence", f"{prop}.json")
+    os.makedirs(os.path.join(OUT, "evidence"), exist_ok=True)
+    evpath = os.path.join(OUT, "evidence", f"{prop}.json")
     json.dump(ev, open(evpath, "w"), indent=1, default=str)
     # cleanup work files
     try:
